@@ -117,22 +117,25 @@ def _solver(timeout_ms, seed):
 def check_sat(formulas, timeout_ms=10000, seed=0, use_cvc5=True):
     """Satisfiability of the conjunction.  z3 first; cvc5 (CLI) takes unknowns."""
     t0 = time.time()
-    s = _solver(timeout_ms, seed)
-    s.add(host_distinct_axiom())
-    for f in formulas:
-        s.add(f)
-    r = s.check()
-    dt = time.time() - t0
-    if r == z3.unsat:
-        return Result("unsat", None, dt, "z3")
-    if r == z3.sat:
-        return Result("sat", s.model(), dt, "z3")
-    reason = s.reason_unknown()
-    if use_cvc5:
-        r2 = cvc5_check(s, timeout_ms)
-        if r2 is not None:
-            r2.seconds += dt
-            return r2
+    # strategy: z3 briefly; cvc5 takes z3's unknowns; then z3 again with the full budget
+    first = min(timeout_ms, 2500) if use_cvc5 else timeout_ms
+    reason = ""
+    for budget in ([first, timeout_ms] if (use_cvc5 and first < timeout_ms) else [first]):
+        s = _solver(budget, seed)
+        s.add(host_distinct_axiom())
+        for f in formulas:
+            s.add(f)
+        r = s.check()
+        if r == z3.unsat:
+            return Result("unsat", None, time.time() - t0, "z3")
+        if r == z3.sat:
+            return Result("sat", s.model(), time.time() - t0, "z3")
+        reason = s.reason_unknown()
+        if use_cvc5 and budget == first:
+            r2 = cvc5_check(s, timeout_ms)
+            if r2 is not None:
+                r2.seconds = time.time() - t0
+                return r2
     return Result("unknown", None, time.time() - t0, "z3", reason)
 
 
